@@ -653,6 +653,33 @@ func runConc(c *Case, tr *Trace) {
 			wantGeneric[vi] = describe(reflect.ValueOf(&generic).Elem())
 		}
 	}
+	// codec pipelines: TLC-enumerated event streams (sub.streams) through every encoder and back through the
+	// format's parser, each on NEW instances; sequential reference first
+	cstreams := subEvents(c.Sub["streams"])
+	codec := func(si, fi int) (string, string) {
+		api := formats[fmts[fi]]
+		sk := &sink{}
+		enc := structform.EnsureExtVisitor(api.newVisitor(sk, Opts{EscapeHTML: si%2 == 0, ExplicitRadixPoint: si%3 == 0, IgnoreInvalidFloat: true}))
+		for i := range cstreams[si] {
+			if err := replayEvent(enc, &cstreams[si][i]); err != nil {
+				return "", "encode: " + err.Error()
+			}
+		}
+		rec := &RefRecorder{}
+		if err := api.parse(append([]byte(nil), sk.all...), rec); err != nil {
+			return string(sk.all), "parse: " + err.Error()
+		}
+		eb, _ := json.Marshal(rec.Events)
+		return string(sk.all) + "|" + string(eb), ""
+	}
+	type ckey struct{ s, f int }
+	wantCodec := map[ckey][2]string{}
+	for si := range cstreams {
+		for fi := range fmts {
+			o, e := codec(si, fi)
+			wantCodec[ckey{si, fi}] = [2]string{o, e}
+		}
+	}
 	var mu sync.Mutex
 	mismatches, errs := 0, 0
 	regs := map[uintptr]int{} // registry identity -> number of instances using it at the same time
@@ -686,6 +713,17 @@ func runConc(c *Case, tr *Trace) {
 						mu.Unlock()
 					}
 				}
+				if len(cstreams) > 0 {
+					for k := 0; k < 4; k++ {
+						si, cf := (g*7+r*4+k)%len(cstreams), (g+r+k)%len(fmts)
+						o, e := codec(si, cf)
+						if w := wantCodec[ckey{si, cf}]; w[0] != o || w[1] != e {
+							mu.Lock()
+							mismatches++
+							mu.Unlock()
+						}
+					}
+				}
 				d, ri, ru, e := pipeline(shared[vi], fmts[fi])
 				mu.Lock()
 				if e != "" {
@@ -716,7 +754,7 @@ func runConc(c *Case, tr *Trace) {
 			dupl++
 		}
 	}
-	tr.Extra = map[string]interface{}{"infra": "", "pipelines": n * rounds, "mismatches": mismatches, "errors": errs,
+	tr.Extra = map[string]interface{}{"infra": "", "pipelines": n * rounds, "codec_streams": len(cstreams), "mismatches": mismatches, "errors": errs,
 		"registries": len(regs), "uses_global": usesGlobal, "reused_ids": dupl}
 }
 
